@@ -1051,61 +1051,82 @@ fn session_history(n: usize, nbase: usize) {
 // C14, iterator level: the sorted merge and the prefix scan on their own (no Arc / Yoke / nested
 // maps around them, so larger sizes are affordable)
 // ------------------------------------------------------------------------------------------
-/// Session-side iterator: strictly ascending (key, Option<value>) pairs.
+/// Iterators that hand out PRE-BUILT items (no allocation while the merge runs, which keeps
+/// CBMC's pointer sets small): committed side and session side.
+struct PIter {
+    items: [Option<Fact>; 3],
+    pos: usize,
+}
+impl Iterator for PIter {
+    type Item = Result<Fact, StorageError>;
+    fn next(&mut self) -> Option<Self::Item> {
+        if self.pos >= 3 {
+            return None;
+        }
+        let i = self.pos;
+        self.pos += 1;
+        self.items[i].take().map(Ok)
+    }
+}
 struct CIter {
-    n: usize,
-    code: [u8; 3],
-    val: [Option<u8>; 3],
+    items: [Option<(Keys, Option<Bytes>)>; 3],
     pos: usize,
 }
 impl Iterator for CIter {
     type Item = (Keys, Option<Bytes>);
     fn next(&mut self) -> Option<Self::Item> {
-        if self.pos >= self.n {
+        if self.pos >= 3 {
             return None;
         }
         let i = self.pos;
         self.pos += 1;
-        Some((mk_key(self.code[i]), self.val[i].map(bx)))
+        self.items[i].take()
     }
 }
 
 /// The real `QueryIterator` over ANY sorted committed facts and ANY sorted session entries.
 fn merge_case(np: usize, ncur: usize) -> (usize, u8) {
     let base = any_base(np);
+    let mut prior = PIter {
+        items: [None, None, None],
+        pos: 0,
+    };
+    let mut i = 0;
+    while i < np {
+        prior.items[i] = Some(Fact {
+            key: mk_key(base.code[i]),
+            value: bx(base.val[i]),
+        });
+        i += 1;
+    }
     let mut cur = CIter {
-        n: ncur,
-        code: [0; 3],
-        val: [None; 3],
+        items: [None, None, None],
         pos: 0,
     };
     let mut lvl: Level = [None; NC];
     let mut shadow = false;
     let mut hide = false;
+    let mut prev: Option<u8> = None;
     let mut i = 0;
     while i < ncur {
-        cur.code[i] = any_code();
-        if i > 0 {
-            kani::assume(cur.code[i - 1] < cur.code[i]);
+        let c = any_code();
+        if let Some(p) = prev {
+            kani::assume(p < c);
         }
+        prev = Some(c);
         let v: u8 = kani::any();
-        cur.val[i] = if kani::any() { Some(v) } else { None };
-        lvl[cur.code[i] as usize] = Some(cur.val[i]);
-        if flat_base(&base)[cur.code[i] as usize].is_some() {
+        let val = if kani::any() { Some(v) } else { None };
+        cur.items[i] = Some((mk_key(c), val.map(bx)));
+        lvl[c as usize] = Some(val);
+        if flat_base(&base)[c as usize].is_some() {
             shadow = true;
-            if cur.val[i].is_none() {
+            if val.is_none() {
                 hide = true;
             }
         }
         i += 1;
     }
     let want = overlay(&flat_base(&base), &lvl);
-    let prior = VIter {
-        f: base,
-        pos: 0,
-        prefix: 0,
-        live: true,
-    };
     let mut it = QueryIterator::new(prior, cur);
     let mut n_want = 0;
     let mut c = 0;
